@@ -272,6 +272,11 @@ def spaces_for_ops(ctx):
     yield '2d-n2', odl.uniform_discr([0, 0], [1, 1], (2, 3))
     yield '2d-c', odl.uniform_discr([0, -1], [3, 1], (4, 3), dtype=complex)
     yield '3d', odl.uniform_discr([0, 0, 0], [1, 2, 3], (3, 2, 4))
+    # cells that are almost, but not exactly, isotropic; and cells that are tiny in absolute terms (nanometres given in metres):
+    # every component is divided by its own cell side
+    yield '2d-almost-isotropic', odl.uniform_discr([0, 0], [1, 1.000004], (4, 4))
+    yield '2d-nanometre-cells', odl.uniform_discr([0, 0], [8e-9, 18e-9], (4, 3))
+    yield '3d-almost-isotropic', odl.uniform_discr([0, 0, 0], [1, 1.000002, 0.999997], (3, 3, 3))
     # grid nodes on the domain boundary (all / one side / mixed per axis): the step of the stencil is the node distance
     # extent / (n - 1), extent / (n - 1/2), ..., not extent / n
     yield '1d-bdry', odl.uniform_discr(0, 1.8, 5, nodes_on_bdry=True)
@@ -368,7 +373,8 @@ def run_ops(ctx):
             if min(shape) < minsize(mode):
                 continue
             # (a pad_const handed in for a non-constant mode is documented to be ignored: same linear operator, adjoint offered)
-            for pad_const in ((0, 1.25) if mode == 'constant' else ((0, 0.75) if not mode.endswith('_adjoint') else (0,))):
+            # (constant padding: also a constant that is nonzero but tiny - the operator is affine for every nonzero value)
+            for pad_const in ((0, 1.25, 5e-9) if mode == 'constant' else ((0, 0.75) if not mode.endswith('_adjoint') else (0,))):
                 idx += 1
                 if not ctx.mine(idx):
                     continue
@@ -406,7 +412,7 @@ def run_ops(ctx):
                                 'operators': ['PartialDerivative(axis=0..%d)' % (nd - 1), 'Gradient', 'Divergence']})
         # Laplacian
         for mode in ['constant', 'symmetric', 'symmetric_adjoint', 'periodic', 'order0', 'order0_adjoint']:
-            for pad_const in ((0, -0.5) if mode == 'constant' else (0,)):
+            for pad_const in ((0, -0.5, 5e-9, -1e-12) if mode == 'constant' else (0,)):
                 idx += 1
                 if not ctx.mine(idx):
                     continue
